@@ -129,4 +129,11 @@ CHECKS = {
         "level_note": "algebraic perturbations are +generator / +1 / substitution (not arbitrary values); MPrime of the request is deliberately not in the catalogue (the signer recomputes it from cm, it is not bound by the proof)",
         "budget_s": {"quick": 170, "thorough": 900},
     },
+    "C10": {
+        "pkg": "checks/c10", "level": "exploration", "engine": "E4 bounded-exhaustive over E1 states",
+        "technique": "exhaustive enumeration of a structure-aware input catalogue (truncations, extensions, substitutions, ASN.1 element removal/duplication, topic and message-type variants) x sources x session states, fired at the real dispatcher of live sessions in a synctest bubble and at the direct backend / verification entry points; process crashes attributed by the worker protocol",
+        "level_text": "no input of the catalogue, in any of the listed session states and from any source, makes the process panic or a call hang; input from non-participants never disturbs the honest session; the session is driven to its end after every batch",
+        "level_note": "byte values outside the catalogue are not covered; ECDSA/EdDSA adapters and the connection handshake are covered by C19/C16's catalogues",
+        "budget_s": {"quick": 170, "thorough": 900},
+    },
 }
